@@ -495,6 +495,11 @@ func envFor(name string) (*pool.Env, bool) {
 		u, _, _ := bfsUniverse(tier)
 		u.Name = name
 		return pool.NewEnv(u), false
+	case "edge":
+		var e uint64
+		fmt.Sscan(p[1], &e)
+		pool.SetHeight(20)
+		return pool.NewEnv(edgeUniverse(e)), false
 	case "mixed":
 		pool.SetHeight(20)
 		return pool.NewEnv(mixedUniverse()), false
@@ -546,6 +551,7 @@ func main() {
 			"A history is counted as non-trivial if it contains a MarkExecuted or a PackForCast that returned a non-empty batch; histories are distinct by construction. A packed batch stays available for MarkExecuted while other blocks are marked/unmarked, unless one of its transactions got executed meanwhile. " +
 			"Part (b): 2- and 3-thread scenarios over colliding transactions (add vs mark of the same transaction, re-add vs mark, add vs add, pack vs mark, unmark vs add, unmark vs pack, mark-with-eviction vs add, add+pack+mark) run on the real pool under a cooperative scheduler with a scheduling point before every statement of transaction_pool.go / simple_container.go: every interleaving with at most 2 (quick) / 3 (thorough) preemptions; the results and the final pool dump must be explained by some sequential order on refpool (a duplicate submission of a still-pending transaction may return either answer). Part (c): the same thread bodies free-running under the race detector. " +
 			"Part a-mixed: every subset of <= 5 (quick) / <= 7 (thorough) of 9 transactions mixing one JSON-RPC sender (nonces stale, expected, repeat of expected, expected+1) with gate transactions (RequestId != 0) of senders numerically below, at and above it, request ids in both relative orders, in every insertion order, then PackForCast against two states: the batch oracle of the statement, plus a differential (the batch of a pending set must not depend on its insertion order; holds on HEAD because the batch order is total for distinct request ids). " +
+			"Part a-edge: the same enumeration (sets of <= 3 / <= 4, every insertion order, two pack states) over one sender's nonces at the uint64 boundaries (expected, +1, +2^63-1, +2^63, +2^63+7, MaxUint64-1, MaxUint64) for state nonces 0, 5 and 2^63. " +
 			"Plus 60 scenarios of 199..250 transactions around the per-block limit of 200 (5 shapes x 4 sizes x 3 insertion orders: add all, pack, block, pack, block, pack, unmark, pack, unmark, pack).",
 		Assumptions: []string{
 			"node fixture: dev genesis, block height 20 = every proposal of the dev table active except the unreachable 025 (checkNonce on, proposal-023 batch ordering); thorough repeats a depth-7 exploration at height 11 (023 off, 021 ordering); accept-all consensus stub (not on the path)",
